@@ -262,6 +262,10 @@ func init() {
 			specs = append(specs, TrajSpecs(r.ID, "map-grow-lim", 90, 51, 92, 40, 2, 256, []string{"t"}, []string{"crash", "ev:commit1"})...)
 			specs = append(specs, TrajSpecs(r.ID, "map-grow-desc", 90, 61, 92, 30, 2, 256, []string{"limM"}, []string{"crash", "ev:commit1"})...)
 			specs = append(specs, TrajSpecs(r.ID, "arr-append-lim", 70, 71, 72, 15, 2, 256, []string{"limA"}, []string{"crash", "ev:commit1"})...)
+			// small trees, cold (every slab clean): shrinking overwrites and removals that borrow from / merge with a clean sibling
+			for _, sc := range []string{"map-grow-lim", "map-grow-desc", "arr-append-lim", "arr-mixed"} {
+				specs = append(specs, TrajSpecs(r.ID, sc, 20, 4, 17, 3, 2, 256, []string{"t", "limM"}, []string{"crash", "ev:commit1"})...)
+			}
 		} else {
 			specs = []Spec{
 				{Name: "mixed-T256-L3", Kind: "mixed", T: 256, L: 3, Keys: 2, Classes: []string{"t", "limA+", "A", "s:M:t"}, Oracles: or, Depth: 7, Extra: map[string]int{"temp": 1}},
@@ -285,7 +289,7 @@ func init() {
 		if !r.Thorough() {
 			specs = []Spec{
 				{Name: "cache-mixed-T256", Kind: "mixed", T: 256, L: 3, Keys: 2, Classes: []string{"t", "limA+", "A"}, Oracles: or, Depth: 5},
-				{Name: "cache-split-T256", Kind: "mixed", T: 256, L: 5, Keys: 4, Classes: []string{"limM"}, Oracles: or, Depth: 6},
+				{Name: "cache-split-T256", Kind: "mixed", T: 256, L: 5, Keys: 4, Classes: []string{"limM", "t"}, Oracles: or, Depth: 6},
 				{Name: "cache-compact-T256", Kind: "mixed", T: 256, L: 2, Keys: 2, Classes: []string{"Mc:t", "Mc:t,t"}, Oracles: or, Depth: 5},
 			}
 			specs = append(specs, TrajSpecs(r.ID, "arr-mixed", 60, 20, 61, 20, 1, 256, []string{"t", "limA"}, or)...)
@@ -293,6 +297,9 @@ func init() {
 			specs = append(specs, TrajSpecs(r.ID, "map-grow-lim", 90, 51, 92, 40, 1, 256, []string{"t", "limM"}, or)...)
 			specs = append(specs, TrajSpecs(r.ID, "map-grow-desc", 90, 11, 92, 40, 1, 256, []string{"t", "limM"}, or)...)
 			specs = append(specs, TrajSpecs(r.ID, "map-grow-desc", 90, 11, 12, 20, 2, 256, []string{"t", "limM"}, or)...)
+			for _, sc := range []string{"map-grow-lim", "map-grow-desc", "arr-append-lim", "arr-mixed"} {
+				specs = append(specs, TrajSpecs(r.ID, sc, 20, 4, 17, 3, 2, 256, []string{"t", "limM"}, or)...)
+			}
 		} else {
 			specs = []Spec{
 				{Name: "cache-mixed-T256", Kind: "mixed", T: 256, L: 3, Keys: 2, Classes: []string{"t", "limA+", "A", "s:M:t"}, Oracles: or, Depth: 7},
